@@ -456,7 +456,15 @@ func (v *Value) toGoValueInterval(rootValues []*Value, checkCircularReference bo
 		return array, nil
 	case ValueObj:
 		obj := make(map[string]interface{})
-		for k, objVal := range *v.Obj {
+		// in key order, so that of several members that cannot be converted
+		// the same one is reported every time
+		keys := make([]string, 0, len(*v.Obj))
+		for k := range *v.Obj {
+			keys = append(keys, k)
+		}
+		sort.Strings(keys)
+		for _, k := range keys {
+			objVal := (*v.Obj)[k]
 			val, err := objVal.Value.toGoValueInterval(append(rootValues, v), true)
 			if err != nil {
 				return nil, err
